@@ -4,9 +4,9 @@ From SF Require Import Base.Prelude Gen.Generated Account.AccountInfo Account.Ac
 Check (C07_range_is_alloc :
   forall orig s, Inv orig s -> data_mut_range_end (s_hdr s) = orig + MAX_INC).
 Check (C07_reachable_no_panic :
-  forall v w ops, size_ok (value_size v) ->
-    Inv (value_size v) (fst (run (init_st v w) ops)) /\
-    Forall (fun ob => ob <> [2]) (snd (run (init_st v w) ops))).
+  forall lw v w ops, shape_ok lw v -> size_ok (value_size lw v) ->
+    Inv (value_size lw v) (fst (run (init_st lw v w) ops)) /\
+    Forall (fun ob => ob <> [2]) (snd (run (init_st lw v w) ops))).
 Check (C07_step_inv :
   forall orig s o, size_ok orig -> Inv orig s -> Inv orig (fst (step s o)) /\ snd (step s o) <> [2]).
 Check (C07_reborrow_mut_ok :
@@ -16,18 +16,20 @@ Check (C07_reborrow_shared_ok :
   forall orig s, Inv orig s -> s_excl s = None -> s_nsh s < 7 -> snd (step s OBorrowSh) = [0]).
 Check (C07_read_observes_current :
   forall orig s, Inv orig s -> (s_excl s <> None \/ 0 < s_nsh s) ->
-    step s ORead = (s, 0 :: value_size (s_val s) :: observe_value (s_val s))).
+    step s ORead = (s, 0 :: value_size (s_lw s) (s_val s) :: observe_value (s_val s))).
 Check (C07_growth_within_allowance_ok :
   forall orig s r i f n b,
     size_ok orig -> Inv orig s -> s_excl s = Some r -> nth_error (s_val s) i = Some f ->
-    0 < n -> zlen f + n <= U32_MAX -> value_size (s_val s) + n <= orig + MAX_INC ->
+    0 < n -> (s_lw s = 4 -> zlen f + n <= U32_MAX) ->
+    value_size (s_lw s) (s_val s) + n <= orig + MAX_INC ->
     snd (step s (OPush i n b)) = [0] /\
     s_val (fst (step s (OPush i n b))) = set_nth i (f ++ zrepeat b n) (s_val s) /\
-    h_dlen (s_hdr (fst (step s (OPush i n b)))) = value_size (s_val s) + n).
+    h_dlen (s_hdr (fst (step s (OPush i n b)))) = value_size (s_lw s) (s_val s) + n).
 Check (C07_over_allowance_is_error :
   forall orig s r i f n b,
     size_ok orig -> Inv orig s -> s_excl s = Some r -> nth_error (s_val s) i = Some f ->
-    0 < n -> zlen f + n <= U32_MAX -> orig + MAX_INC < value_size (s_val s) + n ->
+    0 < n -> (s_lw s = 4 -> zlen f + n <= U32_MAX) ->
+    orig + MAX_INC < value_size (s_lw s) (s_val s) + n ->
     step s (OPush i n b) = (s, [1; PE_INVALID_ACCOUNT_DATA_REALLOC])).
 Check (C07_overlap_refused :
   forall orig s, Inv orig s ->
@@ -39,6 +41,9 @@ Check (C07_readonly_refused :
 (* the definitions the statements rest on, pinned as well *)
 Check (eq_refl : data_mut_range_end = fun h => h_dlen h + MAX_INC - h_delta h).
 Check (eq_refl : MAX_INC = 10240).
+Check (eq_refl : value_size = fun lw v => DISC_W + zsum (map (field_size lw) v)).
+Check (eq_refl : field_size = fun lw f => lw + zlen f).
+Check (eq_refl : shape_ok = fun lw v => 0 < lw \/ (lw = 0 /\ (length v <= 1)%nat)).
 
 Print Assumptions C07_range_is_alloc.
 Print Assumptions C07_reachable_no_panic.
